@@ -106,11 +106,13 @@ pub const RELOPS: [&str; 10] = [
     "EQUALS", "EMBEDS", "EMBEDDED", "OVERLAPS", "PRECEDES", "SUCCEEDS", "SAMEBEGIN", "SAMEEND", "BEFORE", "AFTER",
 ];
 pub const CMPS: [&str; 6] = ["=", "!=", ">", ">=", "<", "<="];
-pub const DATETIMES: [&str; 4] = [
+pub const DATETIMES: [&str; 6] = [
     "2024-01-01T00:00:00+00:00",
     "1999-12-31T23:59:59.500-05:00",
     "2024-02-29T12:00:00Z",
     "2031-07-04T01:02:03+09:30",
+    "2024-06-01T12:34:56.123456+02:00",
+    "2001-02-03T04:05:06.123456789-03:30",
 ];
 pub const COMPLEX: [&str; 3] = ["COMPOSITE", "MULTI", "DIRECTIONAL"];
 
@@ -1016,7 +1018,7 @@ fn vspec(text_form: bool) -> BoxedStrategy<VSpec> {
         1 => Just(VSpec::Null),
         1 => Just(VSpec::Any),
         1 => any::<bool>().prop_map(VSpec::Bool),
-        3 => (0u8..4).prop_map(VSpec::Datetime),
+        3 => (0u8..6).prop_map(VSpec::Datetime),
         1 => raw,
     ]
     .boxed()
